@@ -551,7 +551,7 @@ RULES.append(h12)
 
 @rule("MC", doc="must-call census: no function of this property's files has gained an early exit in front of work it always did (every crate-local call that lay on all paths to a normal return in the reviewed tree still does)")
 def mc(ctx):
-    C.must_call_census(ctx, ctx.lib(), ['src/rewrite/mod.rs', 'src/rewrite/pattern.rs', 'src/rewrite/ematch.rs', 'src/rewrite/subst_method.rs', 'src/egraph/add.rs', 'src/egraph/union.rs', 'src/lang.rs', 'src/egraph/mod.rs'])
+    C.must_call_census(ctx, ctx.lib(), ['src/rewrite/mod.rs', 'src/rewrite/pattern.rs', 'src/rewrite/ematch.rs', 'src/rewrite/subst_method.rs', 'src/egraph/add.rs', 'src/egraph/union.rs', 'src/lang.rs', 'src/egraph/mod.rs', 'src/egraph/find.rs'])
 
 
 RULES.append(mc)
